@@ -379,7 +379,7 @@ func (s *Stream) reset() error {
 // and reuse the last share memory buffer slice of read buffer for next write by Stream.BufferWriter()
 func (s *Stream) ReleaseReadAndReuse() {
 	s.recvBuf.releasePreviousReadAndReserve()
-	if s.recvBuf.len == 0 && s.recvBuf.sliceList.size() == 1 {
+	if s.recvBuf.len == 0 && s.recvBuf.sliceList.size() == 1 && s.sendBuf.sliceList.size() == 0 {
 		s.recvBuf, s.sendBuf = s.sendBuf, s.recvBuf
 	}
 }
